@@ -125,3 +125,32 @@ Proof.
   exists o, (stride_required (extents_list t e) ss). split; [exact Ho|]. split; [|exact Hb].
   apply strided_required_spec; assumption.
 Qed.
+
+(* an mdarray over a strided mapping -- exhaustive or not (padded, permuted strides) -- owns a container of exactly
+   REQUIRED-SPAN-SIZE elements and every in-range access stays inside it; the size of the index space (what size()
+   returns) may be strictly smaller, so a container of size() elements would NOT do *)
+Theorem mdarray_strided_inside_container : forall t e ss idx, wf_ity t -> wf_ext t e ->
+  in_range idx (extents_list t e) -> length ss = rank e ->
+  Forall (fun s => 0 <= s <= imax t) ss -> stride_required (extents_list t e) ss <= imax t ->
+  exists o, strided_map t (strided_ctor t e ss) idx = Some o
+            /\ mda_strided_container_size t (strided_ctor t e ss) = Some (stride_required (extents_list t e) ss)
+            /\ 0 <= o < stride_required (extents_list t e) ss.
+Proof.
+  intros t e ss idx Hwf Hwe Hin Hl Hs Hreq.
+  destruct (strided_access_below_required t e ss idx Hwf Hwe Hin Hl Hs Hreq) as [o [rq [Ho [Hrq Hb]]]].
+  assert (Hpos := in_range_pos _ _ Hin).
+  assert (Hnn : Forall (fun x => 0 <= x) (extents_list t e)).
+  { clear -Hpos. induction Hpos; constructor; [lia | assumption]. }
+  assert (Hspec := strided_required_spec t e ss Hwf Hwe Hnn Hs Hreq).
+  rewrite Hspec in Hrq. injection Hrq as Hrq. subst rq.
+  exists o. split; [exact Ho|]. split; [|exact Hb].
+  unfold mda_strided_container_size. rewrite Hspec. cbn [obind].
+  assert (H64 := imax_lt_2_64 t Hwf). rewrite szw_id by lia. reflexivity.
+Qed.
+
+(* witness: a 2 x 3 view with strides (4, 1) has 6 elements but needs a container of 7: element (1, 2) lives at offset 6 *)
+Theorem mdarray_strided_needs_required_span :
+  let e := ext_from_pack i32 [None; None] [2; 3] in
+  let m := strided_ctor i32 e [4; 1] in
+  mds_size i32 e = 6 /\ mda_strided_container_size i32 m = Some 7 /\ strided_map i32 m [1; 2] = Some 6.
+Proof. vm_compute. repeat split; reflexivity. Qed.
